@@ -537,6 +537,8 @@ where
         .iter()
         .flat_map(|value| match value {
             Some(Value::String(s)) => Some(s.len()),
+            // A missing value is written as a single `.`.
+            None => Some(1),
             _ => None,
         })
         .max()
@@ -1201,6 +1203,43 @@ mod tests {
                 0x00, 0x00, 0x00, 0x00, 0x02, 0x00, 0x80, 0x7f, // [0.0]
             ]
         );
+
+        Ok(())
+    }
+
+    #[test]
+    fn test_write_values_with_all_string_values_missing() -> Result<(), Box<dyn std::error::Error>>
+    {
+        fn t(format: &Map<Format>) -> io::Result<()> {
+            let mut buf = Vec::new();
+            write_values(&mut buf, format, &[None, None])?;
+
+            let expected = [
+                0x17, // Some(Type::String(1))
+                b'.', // None
+                b'.', // None
+            ];
+
+            assert_eq!(buf, expected);
+
+            Ok(())
+        }
+
+        t(&Map::<Format>::new(
+            Number::Count(1),
+            format::Type::String,
+            String::new(),
+        ))?;
+        t(&Map::<Format>::new(
+            Number::Count(1),
+            format::Type::Character,
+            String::new(),
+        ))?;
+        t(&Map::<Format>::new(
+            Number::Count(2),
+            format::Type::Character,
+            String::new(),
+        ))?;
 
         Ok(())
     }
